@@ -285,6 +285,34 @@ pub fn drive_digests(out: &mut dyn std::io::Write, family: &str, seed: u64, thor
                 digest_event(out, alg, big, &m, "bigout", cfg);
             }
         }
+        // block-level content patterns: every word over {zero block, 0xff block, one fixed random block} up to a length
+        // (runs of identical blocks, a run followed by a run of another value, alternations) - state carried from one
+        // compression to the next may depend on block CONTENT, which length sweeps with one content per length never vary
+        {
+            let syms: [Vec<u8>; 3] = [vec![0u8; b], vec![0xffu8; b], rng.bytes(b)];
+            let maxw = if family == "blake" { if thorough { 6 } else { 4 } } else if thorough { 4 } else { 3 };
+            let mut idx = 0usize;
+            for wl in 1..=maxw {
+                for code in 0..3usize.pow(wl as u32) {
+                    idx += 1;
+                    // the slow specifications (JH, Groestl, Skein in TLC) take a rotating third of the words in the quick tier
+                    if family != "blake" && !thorough && (idx + ai + seed as usize) % 3 != 0 {
+                        continue;
+                    }
+                    let mut m: Vec<u8> = vec![];
+                    let mut c = code;
+                    for _ in 0..wl {
+                        m.extend_from_slice(&syms[c % 3]);
+                        c /= 3;
+                    }
+                    if idx % 2 == 0 {
+                        m.extend_from_slice(&syms[idx % 3][..5 + idx % 7]);
+                    }
+                    let n = ns[idx % ns.len()];
+                    digest_event_split(out, alg, n, &m, "blockpat", cfg, if idx % 5 == 0 { 1 + rng.below(0xffff) as usize } else { 0 });
+                }
+            }
+        }
         // longer random messages
         let nlong = if thorough { 6 } else { 2 };
         for k in 0..nlong {
@@ -480,6 +508,36 @@ pub fn drive_hash_histories(out: &mut dyn std::io::Write, seed: u64, thorough: b
             for id in ids {
                 ep.fin(out, id);
             }
+        }
+        // large pieces (an implementation may treat long inputs differently): a short piece that leaves the buffer partly
+        // filled, then one piece of >= 4096 bytes that ends exactly on / just before / just after a block boundary
+        let kb = (4096 / b + 1 + (seed as usize % 5)) * b;
+        let bigs: Vec<(usize, usize)> = [1usize, b / 2, b - 1]
+            .iter()
+            .flat_map(|&p| vec![(p, kb - p), (p, kb - p + 1), (p, kb - p - 1), (p, kb)])
+            .chain(if thorough { vec![(3usize, 65536 - 3), (b - 1, 65536 + 1), (0, kb), (0, 65536)] } else { vec![(b / 2 + 1, 16 * kb - b / 2 - 1)] })
+            .collect();
+        for (bi, &(p, big)) in bigs.iter().enumerate() {
+            let mut ep = HEpisode::start(out, alg, n, "bigpiece");
+            let d = rng.bytes(p);
+            ep.upd(out, 1, &d);
+            let d = rng.bytes(big);
+            ep.upd(out, 1, &d);
+            match bi % 3 {
+                0 => ep.finreset(out, 1),
+                1 => {
+                    ep.clone_to(out, 1, 2);
+                    ep.fin(out, 2);
+                    ep.finreset(out, 1);
+                }
+                _ => {
+                    let d = rng.bytes(b + 1);
+                    ep.upd(out, 1, &d);
+                    ep.finreset(out, 1);
+                }
+            }
+            ep.upd(out, 1, &[7u8; 3]);
+            ep.fin(out, 1);
         }
     }
 }
